@@ -34,8 +34,8 @@ PROPS = {
         lean_module="PrologVerif.Properties.C14",
         ns="PrologVerif.C14",
         streams=[
-            dict(name="c14.table", quick=700, thorough=5000, race=True, isolated=True, case_timeout=60),
-            dict(name="c14.race", quick=200, thorough=1500, race=True, isolated=True, case_timeout=120),
+            dict(name="c14.table", quick=700, thorough=3000, race=True, isolated=True, case_timeout=60),
+            dict(name="c14.race", quick=200, thorough=500, race=True, isolated=True, case_timeout=120),
             dict(name="c14.isolation", quick=3864, thorough=6000),
         ],
         thorough_seeds=3,
